@@ -71,6 +71,10 @@ SHAPES = {
     'avail': 'starts with {"available_blobs":[]}',
     'jsonother': 'starts with {"a":1} (JSON object that is not response-shaped)',
     'fakehdr': 'starts with a complete fake response header naming another blob',
+    'wslead': 'starts with the JSON white-space bytes " \\r\\n\\t" (a parser that skips blanks after the header eats them)',
+    'wstail': 'ends with "\\r\\n \\t" (a parser that strips the tail loses them)',
+    'wsonly': 'six bytes of white space only',
+    'bomnul': 'starts with a UTF-8 BOM and NUL bytes, ends with NUL',
     'big': '2 MiB pseudo-random',
     'bigaddr': '2 MiB starting with {"lbrycrd_address":1}',
 }
@@ -93,6 +97,14 @@ def make_blob(shape, variant=0):
         return b'{"a":1}' + filler(10, variant)
     if shape == 'fakehdr':
         return ref_header(sha(b'some other blob %d' % variant), 31) + filler(12, variant)
+    if shape == 'wslead':
+        return b' \r\n\t' + filler(10, variant)
+    if shape == 'wstail':
+        return filler(10, variant) + b'\r\n \t'
+    if shape == 'wsonly':
+        return (b' \n\t\r \n' + b' ' * variant)
+    if shape == 'bomnul':
+        return b'\xef\xbb\xbf\x00\x00' + filler(8, variant) + b'\x00'
     if shape == 'big':
         return prng(MIB2, variant)
     if shape == 'bigaddr':
@@ -1338,7 +1350,8 @@ def subsets(names):
 
 def honest_cases(quick):
     limit = 8 if quick else 12
-    shapes = ['one', 'plain20', 'brace', 'emptyobj', 'jsonother', 'addr', 'avail', 'fakehdr']
+    shapes = ['one', 'plain20', 'brace', 'emptyobj', 'jsonother', 'addr', 'avail', 'fakehdr',
+              'wslead', 'wstail', 'wsonly', 'bomnul']
     cases = []
     c2s_all = [list(s) for s in subsets(C2S_NAMES)] + ['bytes1']
     for shape in shapes:
@@ -1439,7 +1452,7 @@ def run(ctx):
     ctx.meta.update(
         rule=('A (real client <-> real server): every subset of the per-response cut-point alphabet (first byte, both '
               'sides of every "}" of the header and of the first "}"s of the body, header end -1/0/+1, body middle, '
-              f'end-1; <= {limit} points per blob shape) plus the all-1-byte schedule, for 8 blob shapes x 3 request '
+              f'end-1; <= {limit} points per blob shape) plus the all-1-byte schedule, for 12 blob shapes x 3 request '
               'sequences (1-3 requests on one connection, shape at every position), every subset of the request cut '
               'alphabet {1, middle, end-1} + 1-byte around whole/1-byte responses'
               + ('' if quick else ' and in full product with the response subsets for single requests')
